@@ -172,6 +172,8 @@ pub enum Profile {
     Indep,
     /// demand accounting: pullable puppets, credit-respecting sinks
     PullCount,
+    /// from_iter directly under a probe (n = 255 means an unbounded iterator)
+    FromIterDirect,
     /// puppet -> probe, no crate code (harness self-check)
     SelfCheck,
 }
@@ -451,11 +453,20 @@ pub fn decode(profile: Profile, bytes: &[u8], max_steps: usize) -> Scenario {
                 g.op(ALL_OPS[k - 1], depth, false)
             }
         }
+        Profile::FromIterDirect => {
+            let n = g.d.pick(&[3u8, 0, 1, 2, 5, 8, 64, 255]);
+            g.n_leaf = 1;
+            Topo::FromIter { leaf: 0, n }
+        }
         Profile::PullCount => {
             pullcount = true;
             const OPS: [Op; 7] = [Op::Map, Op::Filter, Op::Scan, Op::Take, Op::Skip, Op::Concat, Op::Flatten];
-            let k = g.d.below(OPS.len() + 1);
-            if k == OPS.len() {
+            let k = g.d.below(OPS.len() + 2);
+            if k == OPS.len() + 1 {
+                let leaf = g.n_leaf;
+                g.n_leaf += 1;
+                Topo::FromIter { leaf, n: g.d.below(7) as u8 }
+            } else if k == OPS.len() {
                 // composition of two of them
                 let a = OPS[g.d.below(OPS.len())];
                 let inner = g.op(a, 0, false);
@@ -466,6 +477,9 @@ pub fn decode(profile: Profile, bytes: &[u8], max_steps: usize) -> Scenario {
                     2 => Topo::Take(1 + g.d.below(6) as u8, Box::new(inner)),
                     3 => Topo::Skip(g.d.below(7) as u8, Box::new(inner)),
                     _ => {
+                        // take ends right after its nth item without being asked, so its output does not
+                        // satisfy the premise (one answer per Pull) that concat! needs from its members
+                        let inner = if let Topo::Take(_, c) = inner { Topo::Skip(1, c) } else { inner };
                         let other = g.leaf(false);
                         Topo::Concat(vec![inner, other])
                     }
